@@ -289,5 +289,5 @@ SUBS = [
     Sub("large_separable_groups", check_large_separable, strategy=_large_cases, quick=48, thorough=600, shards=16,
         shrink_quick=False, floors={"group>=2000_rows": 0.45}),
     Sub("optimum_large_noisy", check_large_noisy, strategy=_large_noisy_cases, quick=32, thorough=500, shards=16, shrink_quick=False,
-        floors={"levels>2048": 0.5}),
+        floors={"levels>2048": 0.45}),
 ]
